@@ -148,3 +148,795 @@ Section Total.
   Lemma names_pure_total R f fl : nth_error (flows g) f = Some fl -> defined R f.
   Proof. intros Hf. eapply total_aux; eauto. Qed.
 End Total.
+
+(* ---------------------------------------------------------------------------------------------- *)
+(* Part 2: the invariant                                                                            *)
+(* ---------------------------------------------------------------------------------------------- *)
+
+Lemma In_dep_add l x d : In x (dep_add l d) <-> x = l \/ In x d.
+Proof.
+  unfold dep_add. destruct (existsb (Nat.eqb l) d) eqn:E; simpl; [|intuition].
+  apply existsb_eqb_In in E. split; [auto|]. intros [->|H]; auto.
+Qed.
+
+Lemma In_dep_union x a b : In x (dep_union a b) <-> In x a \/ In x b.
+Proof.
+  unfold dep_union. induction a as [|y r IH]; simpl; [tauto|]. rewrite In_dep_add, IH. intuition.
+Qed.
+
+Lemma In_dep_remove l x d : In x (dep_remove l d) <-> In x d /\ x <> l.
+Proof.
+  unfold dep_remove. rewrite filter_In. split; intros [H1 H2]; split; auto.
+  - intros ->. rewrite Nat.eqb_refl in H2. discriminate.
+  - destruct (Nat.eqb l x) eqn:E; [apply Nat.eqb_eq in E; subst; congruence|reflexivity].
+Qed.
+
+Lemma lookup_empty k : lookup k empty_layer = None.
+Proof. destruct k; simpl; apply PM.gempty. Qed.
+
+Lemma lookup_layers_In k ls e : lookup_layers k ls = Some e -> exists l, In l ls /\ lookup k l = Some e.
+Proof.
+  induction ls as [|l r IH]; simpl; [discriminate|].
+  destruct (lookup k l) as [e0|] eqn:E.
+  - intros H. inversion H; subst. exists l. auto.
+  - intros H. destruct (IH H) as [l0 [H1 H2]]. exists l0. auto.
+Qed.
+
+Section Full.
+  Variable canon : list alt -> list alt.
+  Hypothesis Hcanon : forall l a, In a (canon l) <-> In a l.
+  Variable g : graph.
+  Variable lv : nat -> nat.
+  Hypothesis Hwf : gwf g lv.
+
+  Lemma Hdir : forall f fl i, nth_error (flows g) f = Some fl -> In (Direct i) (parents fl) -> lv i = lv f.
+  Proof. intros f fl i H1 H2. apply (wf_dir g lv Hwf f fl i H1 H2). Qed.
+  Lemma Hloop : forall f fl l, nth_error (flows g) f = Some fl -> In (Loop l) (parents fl) ->
+    exists t, nth_error (loops g) l = Some t /\ lv t = lv f.
+  Proof. intros f fl l H1 H2. destruct (wf_loop g lv Hwf f fl l H1 H2) as [t [tl [A [B _]]]]. eauto. Qed.
+  Lemma Hchain : forall f fl c, nth_error (flows g) f = Some fl -> parents fl = [] -> In c (chain fl) -> lv c < lv f.
+  Proof. intros f fl c H1 H2 H3. apply (wf_chain g lv Hwf f fl c H1 H2 H3). Qed.
+  Lemma Hhas : forall f fl, nth_error (flows g) f = Some fl -> parents fl <> [] -> exists i, In (Direct i) (parents fl).
+  Proof. apply (wf_has g lv Hwf). Qed.
+
+  Definition ER (w : name) := erow canon g w.
+  Definition LLV := llv g lv.
+
+  (* walks that visit no flow twice and avoid the loops D (lower bound of a stored value) *)
+  Definition ksemS (D : list nat) (k : mkey) (w : name) (a : alt) : Prop :=
+    match k with
+    | KNames f => NSemS g w (ER w) D f a
+    | KPar f => PSemS g w (ER w) D f a
+    | KLoop l => exists t, nth_error (loops g) l = Some t /\ NSemS g w (ER w) (l :: D) t a
+    end.
+
+  (* all walks (upper bound) *)
+  Definition ksemA (k : mkey) (w : name) (a : alt) : Prop :=
+    match k with
+    | KNames f => NSem g w (ER w) [] f a
+    | KPar f => PSem g w (ER w) [] f a
+    | KLoop l => exists t, nth_error (loops g) l = Some t /\ NSem g w (ER w) [] t a
+    end.
+
+  Definition klv (k : mkey) : nat :=
+    match k with KNames f => lv f | KPar f => lv f | KLoop l => LLV l end.
+
+  Record vspec (k : mkey) (v : env) (D : list nat) : Prop := {
+    vs_lb : forall w a, ksemS D k w a -> T v w a;
+    vs_ub : forall w a, T v w a -> ksemA k w a;
+    vs_ok : env_ok v;
+    vs_lv : forall l, In l D -> LLV l <= klv k }.
+
+  Lemma NSemS_mono w R R' f a : (forall l, In l R' -> In l R) -> NSemS g w (ER w) R f a -> NSemS g w (ER w) R' f a.
+  Proof. intros H [p [Hp Hn]]. exists p. split; [eapply npath_mono; eauto|exact Hn]. Qed.
+
+  Lemma PSemS_mono w R R' f a : (forall l, In l R' -> In l R) -> PSemS g w (ER w) R f a -> PSemS g w (ER w) R' f a.
+  Proof.
+    intros H [He|[g0 [He Hs]]]; [left; exact He|]. right. exists g0.
+    split; [eapply pedge_mono; eauto|eapply NSemS_mono; eauto].
+  Qed.
+
+  Lemma ksemS_mono D D' k w a : incl D' D -> ksemS D k w a -> ksemS D' k w a.
+  Proof.
+    intros H. destruct k as [f|f|l]; simpl.
+    - apply NSemS_mono. exact H.
+    - apply PSemS_mono. exact H.
+    - intros [t [Ht Hs]]. exists t. split; [exact Ht|]. eapply NSemS_mono; [|exact Hs].
+      intros x [->|Hx]; [left; reflexivity|right; apply H; exact Hx].
+  Qed.
+
+  Lemma vspec_ext k v D D' : incl D D' -> incl D' D -> vspec k v D -> vspec k v D'.
+  Proof.
+    intros H1 H2 [A B C E]. constructor; [|exact B|exact C|].
+    - intros w a Hs. apply A. eapply ksemS_mono; [|exact Hs]. exact H1.
+    - intros l Hl. apply E. apply H2. exact Hl.
+  Qed.
+
+  (* --- the memo state --- *)
+  Fixpoint layers_ok (rs : list nat) (ls : list layer) : Prop :=
+    match rs, ls with
+    | [], [] => True
+    | r :: rs', l :: ls' =>
+        (forall k v D, lookup k l = Some (v, D) -> vspec k v D /\ incl D (r :: rs')) /\ layers_ok rs' ls'
+    | _, _ => False
+    end.
+
+  Definition inv (st : mstate) : Prop :=
+    NoDup (resolving st) /\ layers_ok (resolving st) (layers st) /\ dstack st <> [] /\
+    forall k v D, lookup k (perm st) = Some (v, D) -> D = [] /\ vspec k v [].
+
+  Lemma layers_ok_In : forall rs ls, layers_ok rs ls -> forall l, In l ls ->
+    forall k v D, lookup k l = Some (v, D) -> vspec k v D /\ incl D rs.
+  Proof.
+    induction rs as [|r rs IH]; intros [|l0 ls] H; simpl in H; try contradiction.
+    destruct H as [H0 H1]. intros l [->|Hl] k v D Hk.
+    - apply H0. exact Hk.
+    - destruct (IH ls H1 l Hl k v D Hk) as [A B]. split; [exact A|].
+      intros x Hx. right. apply B. exact Hx.
+  Qed.
+
+  Lemma memo_lookup_spec st k v D : inv st -> memo_lookup k st = Some (v, D) ->
+    vspec k v D /\ incl D (resolving st).
+  Proof.
+    intros [_ [Hl [_ Hp]]]. unfold memo_lookup. destruct (lookup k (perm st)) as [e|] eqn:E.
+    - intros H. inversion H; subst. destruct (Hp _ _ _ E) as [-> Hv]. split; [exact Hv|intros x []].
+    - intros H. destruct (lookup_layers_In _ _ _ H) as [l [Hin Hk]].
+      apply in_rev in Hin. eapply layers_ok_In; eauto.
+  Qed.
+
+  Definition frames (st st' : mstate) (D : list nat) : Prop :=
+    exists d d' rest, dstack st = d :: rest /\ dstack st' = d' :: rest /\
+                      forall x, In x d' <-> In x d \/ In x D.
+
+  Definition cspec (k : mkey) (st st' : mstate) (v : env) : Prop :=
+    inv st' /\ resolving st' = resolving st /\
+    exists D, frames st st' D /\ incl D (resolving st) /\ vspec k v D.
+
+  Lemma store_in_ok k v d : forall rs ls ls', layers_ok rs ls -> vspec k v d -> incl d rs ->
+    store_in k (v, d) d rs ls = Some ls' -> layers_ok rs ls'.
+  Proof.
+    induction rs as [|r rs IH]; intros [|l ls] ls' Hok Hv Hin; simpl in *; try discriminate; try contradiction.
+    destruct Hok as [H0 H1]. destruct (existsb (Nat.eqb r) d) eqn:E.
+    - intros H. inversion H; subst. simpl. split; [|exact H1].
+      intros k' v' D' Hk. destruct (mkey_eq_dec k k') as [->|Hne].
+      + rewrite lookup_store_same in Hk. inversion Hk; subst. split; [exact Hv|exact Hin].
+      + rewrite lookup_store_other in Hk by exact Hne. apply H0. exact Hk.
+    - destruct (store_in k (v, d) d rs ls) as [ls''|] eqn:Es; [|discriminate].
+      intros H. inversion H; subst. simpl. split; [exact H0|].
+      apply (IH ls ls'' H1 Hv); [|exact Es].
+      intros x Hx. destruct (Hin x Hx) as [->|Hr]; [|exact Hr].
+      apply existsb_eqb_nIn in E. contradiction.
+  Qed.
+
+  Lemma store_entry_inv k v d st : inv st -> vspec k v d -> incl d (resolving st) ->
+    inv (store_entry false k v d st).
+  Proof.
+    intros [Hnd [Hl [Hds Hp]]] Hv Hin. unfold store_entry. destruct d as [|x d'].
+    - split; [exact Hnd|]. split; [exact Hl|]. split; [exact Hds|]. simpl.
+      intros k' v' D' Hk. destruct (mkey_eq_dec k k') as [->|Hne].
+      + rewrite lookup_store_same in Hk. inversion Hk; subst. auto.
+      + rewrite lookup_store_other in Hk by exact Hne. apply Hp. exact Hk.
+    - assert (Hst : inv st) by (split; [exact Hnd|]; split; [exact Hl|]; split; [exact Hds|exact Hp]).
+      destruct (forallb (fun l => existsb (Nat.eqb l) (resolving st)) (x :: d')); [|exact Hst].
+      destruct (store_in _ _ _ _ _) as [ls|] eqn:E; [|exact Hst].
+      split; [exact Hnd|]. split; [simpl; eapply store_in_ok; eauto|]. split; [exact Hds|exact Hp].
+  Qed.
+
+  Lemma inv_same st st' : inv st -> perm st' = perm st -> layers st' = layers st ->
+    resolving st' = resolving st -> dstack st' <> [] -> inv st'.
+  Proof.
+    intros [A [B [C E]]] Hp Hl Hr Hd. unfold inv. rewrite Hp, Hl, Hr. auto.
+  Qed.
+
+  Lemma store_entry_resolving k v d st : resolving (store_entry false k v d st) = resolving st.
+  Proof.
+    unfold store_entry. destruct d; [reflexivity|].
+    destruct (forallb _ _); [|reflexivity]. destruct (store_in _ _ _ _ _); reflexivity.
+  Qed.
+
+  Lemma store_entry_dstack k v d st : dstack (store_entry false k v d st) = dstack st.
+  Proof.
+    unfold store_entry. destruct d; [reflexivity|].
+    destruct (forallb _ _); [|reflexivity]. destruct (store_in _ _ _ _ _); reflexivity.
+  Qed.
+
+  Lemma memo_call_full k func st v st' :
+    inv st ->
+    (forall st1 v1 st2, inv st1 -> resolving st1 = resolving st -> (exists rest, dstack st1 = [] :: rest) ->
+        func st1 = Some (v1, st2) -> cspec k st1 st2 v1) ->
+    memo_call false k func st = Some (v, st') -> cspec k st st' v.
+  Proof.
+    intros Hinv Hf. unfold memo_call. destruct (memo_lookup k st) as [[v0 d0]|] eqn:E.
+    - intros H. inversion H; subst. clear H. destruct (memo_lookup_spec _ _ _ _ Hinv E) as [Hv Hin].
+      assert (Hds : dstack st <> []) by (destruct Hinv as [_ [_ [Hds _]]]; exact Hds).
+      destruct (dstack st) as [|top rest] eqn:Ed; [congruence|].
+      assert (Hdd : dstack (add_deps d0 st) = dep_union d0 top :: rest) by (unfold add_deps; rewrite Ed; reflexivity).
+      assert (Hpp : perm (add_deps d0 st) = perm st /\ layers (add_deps d0 st) = layers st /\
+                    resolving (add_deps d0 st) = resolving st) by (unfold add_deps; rewrite Ed; auto).
+      destruct Hpp as [Hp1 [Hp2 Hp3]].
+      split; [apply (inv_same st); auto; rewrite Hdd; discriminate|].
+      split; [exact Hp3|]. exists d0. split; [|split; assumption].
+      exists top, (dep_union d0 top), rest. split; [exact Ed|]. split; [exact Hdd|].
+      intros x. rewrite In_dep_union. tauto.
+    - destruct (func (push_deps st)) as [[v1 st1]|] eqn:Ef; [|discriminate].
+      assert (Hpush : inv (push_deps st)) by (apply (inv_same st); auto; simpl; discriminate).
+      destruct (Hf _ _ _ Hpush eq_refl (ex_intro _ (dstack st) eq_refl) Ef)
+        as [Hinv1 [Hrs [D [[d [d' [rest0 [Hd0 [Hd1 Hdd]]]]] [HinD HvD]]]]].
+      simpl in Hd0. inversion Hd0; subst d rest0. simpl in Hrs, HinD.
+      unfold pop_deps. rewrite Hd1.
+      assert (Hds : dstack st <> []) by (destruct Hinv as [_ [_ [Hds _]]]; exact Hds).
+      destruct (dstack st) as [|top rest] eqn:Ed; [congruence|].
+      intros H. inversion H; subst v st'. clear H.
+      assert (HD1 : incl D d') by (intros x Hx; apply Hdd; right; exact Hx).
+      assert (HD2 : incl d' D) by (intros x Hx; apply Hdd in Hx; destruct Hx as [[]|Hx]; exact Hx).
+      assert (Hv' : vspec k v1 d') by (eapply vspec_ext; eauto).
+      assert (Hin' : incl d' (resolving st)) by (intros x Hx; apply HinD; apply HD2; exact Hx).
+      set (stB := mkState (perm st1) (layers st1) (top :: rest) (resolving st1)).
+      assert (HdA : dstack (add_deps d' stB) = dep_union d' top :: rest) by reflexivity.
+      assert (HinvA : inv (add_deps d' stB)).
+      { apply (inv_same st1); auto. rewrite HdA. discriminate. }
+      assert (HrsA : resolving (add_deps d' stB) = resolving st) by exact Hrs.
+      split; [apply store_entry_inv; [exact HinvA|exact Hv'|rewrite HrsA; exact Hin']|].
+      split; [rewrite store_entry_resolving; exact HrsA|].
+      exists d'. split; [|split; assumption].
+      exists top, (dep_union d' top), rest. split; [exact Ed|].
+      split; [rewrite store_entry_dstack; exact HdA|].
+      intros x. rewrite In_dep_union. tauto.
+  Qed.
+
+  (* --- computations --- *)
+  Definition kctx (st : mstate) (n : nat) : Prop := forall l, In l (resolving st) -> n <= LLV l.
+
+  Definition rec_full (rec : nat -> mstate -> option (env * mstate)) : Prop :=
+    forall f st v st', inv st -> kctx st (lv f) -> rec f st = Some (v, st') -> cspec (KNames f) st st' v.
+
+  Lemma frames_trans st1 st2 st3 D1 D2 : frames st1 st2 D1 -> frames st2 st3 D2 -> frames st1 st3 (D1 ++ D2).
+  Proof.
+    intros [d [d' [rest [A [B C]]]]] [e [e' [rest' [A' [B' C']]]]].
+    rewrite B in A'. inversion A'; subst e rest'.
+    exists d, e', rest. split; [exact A|]. split; [exact B'|].
+    intros x. rewrite C', C, in_app_iff. tauto.
+  Qed.
+
+  Lemma frames_nil st : dstack st <> [] -> frames st st [].
+  Proof.
+    intros H. destruct (dstack st) as [|d rest] eqn:E; [congruence|].
+    exists d, d, rest. rewrite E. repeat split; auto. intros [H0|[]]. exact H0.
+  Qed.
+
+  Lemma frames_ext st st' D D' : (forall x, In x D <-> In x D') -> frames st st' D -> frames st st' D'.
+  Proof.
+    intros H [d [d' [rest [A [B C]]]]]. exists d, d', rest. repeat split; auto.
+    - intros Hx. apply C in Hx. rewrite <- H. exact Hx.
+    - intros Hx. apply C. rewrite H. exact Hx.
+  Qed.
+
+  Lemma filter_neq_id l rs : ~ In l rs -> filter (fun x => negb (Nat.eqb l x)) rs = rs.
+  Proof.
+    induction rs as [|r rs IH]; simpl; [reflexivity|]. intros H.
+    destruct (Nat.eqb l r) eqn:E.
+    - apply Nat.eqb_eq in E. subst. exfalso. apply H. left. reflexivity.
+    - simpl. f_equal. apply IH. intros Hx. apply H. right. exact Hx.
+  Qed.
+
+  Lemma LLV_target l t : nth_error (loops g) l = Some t -> LLV l = lv t.
+  Proof. intros H. unfold LLV, llv. rewrite H. reflexivity. Qed.
+
+  (* result of LoopFlow.names *)
+  Definition lspec (l : nat) (st st' : mstate) (ov : option env) : Prop :=
+    inv st' /\ resolving st' = resolving st /\
+    exists D, frames st st' D /\ incl D (resolving st) /\
+      match ov with
+      | None => In l D /\ incl D [l]
+      | Some v => vspec (KLoop l) v D
+      end.
+
+  Lemma loop_m_full rec l t st ov st' : rec_full rec ->
+    nth_error (loops g) l = Some t -> inv st -> kctx st (lv t) ->
+    loop_m false g rec l st = Some (ov, st') -> lspec l st st' ov.
+  Proof.
+    intros Hrec Ht Hinv Hctx. unfold loop_m. destruct (existsb (Nat.eqb l) (resolving st)) eqn:Em.
+    - intros H. inversion H; subst ov st'. clear H. apply existsb_eqb_In in Em.
+      assert (Hds : dstack st <> []) by (destruct Hinv as [_ [_ [Hds _]]]; exact Hds).
+      destruct (dstack st) as [|top rest] eqn:Ed; [congruence|].
+      assert (Hdd : dstack (add_deps [l] st) = dep_union [l] top :: rest) by (unfold add_deps; rewrite Ed; reflexivity).
+      assert (Hpp : perm (add_deps [l] st) = perm st /\ layers (add_deps [l] st) = layers st /\
+                    resolving (add_deps [l] st) = resolving st) by (unfold add_deps; rewrite Ed; auto).
+      destruct Hpp as [Hp1 [Hp2 Hp3]].
+      split; [apply (inv_same st); auto; rewrite Hdd; discriminate|]. split; [exact Hp3|].
+      exists [l]. split; [|split].
+      + exists top, (dep_union [l] top), rest. split; [exact Ed|]. split; [exact Hdd|].
+        intros x. rewrite In_dep_union. tauto.
+      + intros x [->|[]]. exact Em.
+      + split; [left; reflexivity|apply incl_refl].
+    - rewrite Ht. apply existsb_eqb_nIn in Em.
+      destruct (memo_call false (KLoop l) _ st) as [[v st1]|] eqn:Emc; [|discriminate].
+      intros H. inversion H; subst ov st'. clear H.
+      assert (Hc : cspec (KLoop l) st st1 v).
+      { refine (memo_call_full (KLoop l) _ st v st1 Hinv _ Emc).
+        intros sa v1 sb Hinva Hrsa [rest Hda] Hfa.
+        destruct (rec t (enter_loop l sa)) as [[v2 sc]|] eqn:Er; [|discriminate].
+        inversion Hfa; subst v1 sb. clear Hfa.
+        assert (Hinve : inv (enter_loop l sa)).
+        { destruct Hinva as [A [B [C E]]]. unfold enter_loop. split; simpl.
+          - constructor; [rewrite Hrsa; exact Em|exact A].
+          - split; [|split; [exact C|exact E]]. split; [|exact B].
+            intros k v0 D0 Hk. rewrite lookup_empty in Hk. discriminate. }
+        assert (Hctxe : kctx (enter_loop l sa) (lv t)).
+        { intros x [<-|Hx]; [rewrite (LLV_target _ _ Ht); lia|]. apply Hctx. rewrite <- Hrsa. exact Hx. }
+        destruct (Hrec t _ _ _ Hinve Hctxe Er) as [Hinvc [Hrsc [Dt [[d [d' [rest0 [Hd0 [Hd1 Hdd]]]]] [HinDt HvDt]]]]].
+        simpl in Hd0, Hrsc, HinDt. rewrite Hda in Hd0. inversion Hd0; subst d rest0.
+        assert (Hnl : ~ In l (resolving sa)) by (rewrite Hrsa; exact Em).
+        assert (Hrl : resolving (leave_loop l sc) = resolving sa).
+        { unfold leave_loop. simpl. rewrite Hrsc. simpl. rewrite Nat.eqb_refl. simpl. apply filter_neq_id. exact Hnl. }
+        assert (Hdl : dstack (leave_loop l sc) = dep_remove l d' :: rest).
+        { unfold leave_loop. simpl. rewrite Hd1. reflexivity. }
+        split.
+        - destruct Hinvc as [A [B [C E]]]. rewrite Hrsc in A, B. split; [rewrite Hrl; inversion A; assumption|].
+          split; [|split; [rewrite Hdl; discriminate|exact E]].
+          rewrite Hrl. unfold leave_loop. simpl. destruct (layers sc) as [|x ls']; simpl in B; [contradiction|].
+          destruct B as [_ B]. exact B.
+        - split; [exact Hrl|]. exists (dep_remove l Dt). split; [|split].
+          + exists [], (dep_remove l d'), rest. split; [exact Hda|]. split; [exact Hdl|].
+            intros x. rewrite !In_dep_remove, Hdd. simpl. tauto.
+          + intros x Hx. apply In_dep_remove in Hx. destruct Hx as [Hx Hne].
+            destruct (HinDt x Hx) as [E|E]; [congruence|exact E].
+          + destruct HvDt as [LB UB OK LVB]. constructor.
+            * intros w a [t' [Ht' Hs]]. rewrite Ht in Ht'. inversion Ht'; subst t'.
+              apply LB. simpl. eapply NSemS_mono; [|exact Hs].
+              intros x Hx. destruct (Nat.eq_dec x l) as [->|Hne]; [left; reflexivity|].
+              right. apply In_dep_remove. auto.
+            * intros w a Ha. exists t. split; [exact Ht|]. apply UB. exact Ha.
+            * exact OK.
+            * intros x Hx. apply In_dep_remove in Hx. destruct Hx as [Hx _].
+              simpl. rewrite (LLV_target _ _ Ht). apply (LVB x Hx). }
+      destruct Hc as [A [B [D [C [E F]]]]].
+      split; [exact A|]. split; [exact B|]. exists D. auto.
+  Qed.
+
+  (* a parent is accounted for by the gathered environments *)
+  Definition pspec (p : parent) (D : list nat) (es : list env) : Prop :=
+    match p with
+    | Direct i => exists v Di, In v es /\ incl Di D /\ vspec (KNames i) v Di
+    | Loop l => In l D \/ exists v Dl, In v es /\ incl Dl D /\ vspec (KLoop l) v Dl
+    end.
+
+  Definition pfrom (p : parent) (v : env) : Prop :=
+    match p with
+    | Direct i => exists Di, vspec (KNames i) v Di
+    | Loop l => exists Dl, vspec (KLoop l) v Dl
+    end.
+
+  Lemma pspec_mono p D D' es es' : incl D D' -> incl es es' -> pspec p D es -> pspec p D' es'.
+  Proof.
+    intros H1 H2. destruct p as [i|l]; simpl.
+    - intros [v [Di [A [B C]]]]. exists v, Di. split; [apply H2; exact A|]. split; [|exact C].
+      intros x Hx. apply H1. apply B. exact Hx.
+    - intros [A|[v [Dl [A [B C]]]]]; [left; apply H1; exact A|]. right. exists v, Dl.
+      split; [apply H2; exact A|]. split; [|exact C]. intros x Hx. apply H1. apply B. exact Hx.
+  Qed.
+
+  Definition gspec (f : nat) (ps : list parent) (st st' : mstate) (es : list env) : Prop :=
+    inv st' /\ resolving st' = resolving st /\
+    exists D, frames st st' D /\ incl D (resolving st) /\ (forall l, In l D -> LLV l <= lv f) /\
+      (forall p, In p ps -> pspec p D es) /\
+      (forall v, In v es -> exists p, In p ps /\ pfrom p v).
+
+  Lemma gather_m_full rec f fl : rec_full rec -> nth_error (flows g) f = Some fl ->
+    forall ps st es st', incl ps (parents fl) -> inv st -> kctx st (lv f) ->
+    gather_m false g rec ps st = Some (es, st') -> gspec f ps st st' es.
+  Proof.
+    intros Hrec Hf. induction ps as [|p r IH]; intros st es st' Hin Hinv Hctx; simpl.
+    - intros H. inversion H; subst es st'. split; [exact Hinv|]. split; [reflexivity|].
+      exists []. split; [apply frames_nil; destruct Hinv as [_ [_ [Hd _]]]; exact Hd|].
+      split; [intros x []|]. split; [intros x []|]. split; [intros p []|intros v []].
+    - assert (Hr : incl r (parents fl)) by (intros x Hx; apply Hin; right; exact Hx).
+      destruct p as [i|l].
+      + assert (Hli : lv i = lv f) by (eapply Hdir; [exact Hf|apply Hin; left; reflexivity]).
+        destruct (rec i st) as [[e st1]|] eqn:E; [|discriminate].
+        assert (Hctxi : kctx st (lv i)) by (rewrite Hli; exact Hctx).
+        destruct (Hrec i st e st1 Hinv Hctxi E) as [Hinv1 [Hrs1 [D1 [Hfr1 [HinD1 Hv1]]]]].
+        destruct (gather_m false g rec r st1) as [[es' st2]|] eqn:E2; [|discriminate].
+        assert (Hctx1 : kctx st1 (lv f)) by (intros x Hx; apply Hctx; rewrite <- Hrs1; exact Hx).
+        destruct (IH st1 es' st2 Hr Hinv1 Hctx1 E2) as [Hinv2 [Hrs2 [D2 [Hfr2 [HinD2 [HlvD2 [Hps Hvs]]]]]]].
+        intros H. inversion H; subst es st'. clear H.
+        split; [exact Hinv2|]. split; [congruence|]. exists (D1 ++ D2).
+        split; [eapply frames_trans; eauto|].
+        split; [intros x Hx; apply in_app_or in Hx; destruct Hx as [Hx|Hx]; [apply HinD1; exact Hx|rewrite <- Hrs1; apply HinD2; exact Hx]|].
+        split; [intros x Hx; apply in_app_or in Hx; destruct Hx as [Hx|Hx]; [rewrite <- Hli; apply (vs_lv _ _ _ Hv1 x Hx)|apply HlvD2; exact Hx]|].
+        split.
+        * intros p [<-|Hp].
+          -- exists e, D1. split; [left; reflexivity|]. split; [apply incl_appl, incl_refl|exact Hv1].
+          -- eapply pspec_mono; [apply incl_appr, incl_refl|apply incl_tl, incl_refl|apply Hps; exact Hp].
+        * intros v [<-|Hv].
+          -- exists (Direct i). split; [left; reflexivity|]. exists D1. exact Hv1.
+          -- destruct (Hvs v Hv) as [p [Hp Hpf]]. exists p. split; [right; exact Hp|exact Hpf].
+      + destruct (Hloop f fl l Hf (Hin _ (or_introl eq_refl))) as [t [Ht Hlt]].
+        destruct (loop_m false g rec l st) as [[oe st1]|] eqn:E; [|discriminate].
+        assert (Hctxt : kctx st (lv t)) by (rewrite Hlt; exact Hctx).
+        destruct (loop_m_full rec l t st oe st1 Hrec Ht Hinv Hctxt E) as [Hinv1 [Hrs1 [D1 [Hfr1 [HinD1 Hv1]]]]].
+        destruct (gather_m false g rec r st1) as [[es' st2]|] eqn:E2; [|discriminate].
+        assert (Hctx1 : kctx st1 (lv f)) by (intros x Hx; apply Hctx; rewrite <- Hrs1; exact Hx).
+        destruct (IH st1 es' st2 Hr Hinv1 Hctx1 E2) as [Hinv2 [Hrs2 [D2 [Hfr2 [HinD2 [HlvD2 [Hps Hvs]]]]]]].
+        intros H. inversion H; subst es st'. clear H.
+        assert (HlvD1 : forall x, In x D1 -> LLV x <= lv f).
+        { intros x Hx. destruct oe as [v|].
+          - assert (A := vs_lv _ _ _ Hv1 x Hx). simpl in A. rewrite (LLV_target _ _ Ht) in A. lia.
+          - destruct Hv1 as [_ Hv1]. destruct (Hv1 x Hx) as [<-|[]]. rewrite (LLV_target _ _ Ht). lia. }
+        split; [exact Hinv2|]. split; [congruence|]. exists (D1 ++ D2).
+        split; [eapply frames_trans; eauto|].
+        split; [intros x Hx; apply in_app_or in Hx; destruct Hx as [Hx|Hx]; [apply HinD1; exact Hx|rewrite <- Hrs1; apply HinD2; exact Hx]|].
+        split; [intros x Hx; apply in_app_or in Hx; destruct Hx as [Hx|Hx]; [apply HlvD1; exact Hx|apply HlvD2; exact Hx]|].
+        split.
+        * intros p [<-|Hp].
+          -- destruct oe as [v|]; simpl.
+             ++ right. exists v, D1. split; [left; reflexivity|]. split; [apply incl_appl, incl_refl|exact Hv1].
+             ++ left. apply in_or_app. left. apply Hv1.
+          -- eapply pspec_mono; [apply incl_appr, incl_refl| |apply Hps; exact Hp].
+             destruct oe; [apply incl_tl|]; apply incl_refl.
+        * intros v Hv. destruct oe as [v0|].
+          -- destruct Hv as [<-|Hv].
+             ++ exists (Loop l). split; [left; reflexivity|]. exists D1. exact Hv1.
+             ++ destruct (Hvs v Hv) as [p [Hp Hpf]]. exists p. split; [right; exact Hp|exact Hpf].
+          -- destruct (Hvs v Hv) as [p [Hp Hpf]]. exists p. split; [right; exact Hp|exact Hpf].
+  Qed.
+
+  Definition psound := names_pure_sound canon Hcanon g lv Hdir Hloop Hchain Hhas.
+  Definition pcomplete := names_pure_complete canon Hcanon g lv Hdir Hloop Hchain Hhas.
+
+  Lemma ctx_ok_nil f : ctx_ok g lv [] f.
+  Proof. intros l []. Qed.
+
+  (* parent_names of a flow with parents: the join of the gathered environments *)
+  Lemma join_vspec f fl D es : nth_error (flows g) f = Some fl -> parents fl <> [] ->
+    (forall l, In l D -> LLV l <= lv f) ->
+    (forall p, In p (parents fl) -> pspec p D es) ->
+    (forall v, In v es -> exists p, In p (parents fl) /\ pfrom p v) ->
+    vspec (KPar f) (join canon es) D.
+  Proof.
+    intros Hf Hne Hlv Hps Hvs.
+    assert (Hes : es <> []).
+    { destruct (Hhas f fl Hf Hne) as [i Hi]. destruct (Hps _ Hi) as [v [Di [Hv _]]]. intros ->. contradiction. }
+    constructor.
+    - intros w a [[r [[fl' [Hf' [Hp' _]]] _]]|[g0 [[fl' [Hf' He]] [p [Hp Hnd]]]]].
+      + rewrite Hf in Hf'. inversion Hf'; subst fl'. contradiction.
+      + rewrite Hf in Hf'. inversion Hf'; subst fl'. apply (T_join canon Hcanon w es a Hes).
+        destruct He as [Hd|[l [Hl [Hn Ht]]]].
+        * destruct (Hps _ Hd) as [v [Di [Hv [Hi Hsp]]]]. exists v. split; [exact Hv|].
+          apply (vs_lb _ _ _ Hsp). simpl. exists p. split; [|exact Hnd].
+          eapply npath_mono; [|exact Hp]. exact Hi.
+        * destruct (Hps _ Hl) as [Hin|[v [Dl [Hv [Hi Hsp]]]]]; [contradiction|].
+          exists v. split; [exact Hv|]. apply (vs_lb _ _ _ Hsp). simpl. exists g0. split; [exact Ht|].
+          exists p. split; [|exact Hnd]. apply npath_avoid.
+          -- intros x Hx E. rewrite Ht in E. inversion E; subst x. inversion Hnd; subst. contradiction.
+          -- eapply npath_mono; [|exact Hp]. exact Hi.
+    - intros w a Ha. apply (T_join canon Hcanon w es a Hes) in Ha. destruct Ha as [v [Hv Ha]].
+      destruct (Hvs v Hv) as [p [Hp Hpf]]. right. destruct p as [i|l]; simpl in Hpf.
+      + destruct Hpf as [Di Hsp]. exists i. split; [exists fl; split; [exact Hf|left; exact Hp]|].
+        apply (vs_ub _ _ _ Hsp). exact Ha.
+      + destruct Hpf as [Dl Hsp]. destruct (vs_ub _ _ _ Hsp w a Ha) as [t [Ht Hs]].
+        exists t. split; [|exact Hs]. exists fl. split; [exact Hf|]. right. exists l. repeat split; auto.
+    - intros w. apply (join_row_ok canon Hcanon). intros e He.
+      destruct (Hvs e He) as [p [_ Hpf]]. destruct p; destruct Hpf as [D0 Hsp]; apply (vs_ok _ _ _ Hsp).
+    - exact Hlv.
+  Qed.
+
+  (* a stored value without dependencies is the memo-free value under the empty context *)
+  Lemma exact_of_vspec c v n pc : vspec (KNames c) v [] -> names_pure canon g n [] c = Some pc ->
+    env_rel same_set v pc.
+  Proof.
+    intros [LB UB OK _] Hp w.
+    destruct (psound n [] c pc Hp (ctx_ok_nil c) w) as [Hok Hs].
+    apply row_eq_of_T; [apply OK|exact Hok|]. intros a. split.
+    - intros Ha. destruct (NSem_simple _ _ _ _ _ _ (UB w a Ha)) as [p [Hp1 Hp2]].
+      exact (pcomplete n [] c pc Hp (ctx_ok_nil c) w p a Hp1 Hp2).
+    - intros Ha. apply LB. simpl. apply NSem_simple. apply Hs. exact Ha.
+  Qed.
+
+  (* the chain of an entry flow: flows of outer levels, which meet no loop that is being resolved *)
+  Lemma chain_m_full rec f fl : rec_full rec -> nth_error (flows g) f = Some fl -> parents fl = [] ->
+    forall cs st es st', incl cs (chain fl) -> inv st -> kctx st (lv f) ->
+    chain_m rec cs st = Some (es, st') ->
+    inv st' /\ resolving st' = resolving st /\ frames st st' [] /\
+    Forall2 (fun c v => vspec (KNames c) v []) cs es.
+  Proof.
+    intros Hrec Hf Hp. induction cs as [|c r IH]; intros st es st' Hin Hinv Hctx; simpl.
+    - intros H. inversion H; subst es st'. split; [exact Hinv|]. split; [reflexivity|].
+      split; [apply frames_nil; destruct Hinv as [_ [_ [Hd _]]]; exact Hd|constructor].
+    - assert (Hlt : lv c < lv f) by (eapply Hchain; [exact Hf|exact Hp|apply Hin; left; reflexivity]).
+      destruct (rec c st) as [[e st1]|] eqn:E; [|discriminate].
+      assert (Hctxc : kctx st (lv c)) by (intros x Hx; specialize (Hctx x Hx); lia).
+      destruct (Hrec c st e st1 Hinv Hctxc E) as [Hinv1 [Hrs1 [D1 [Hfr1 [HinD1 Hv1]]]]].
+      assert (Hempty : forall x, ~ In x D1).
+      { intros x Hx. assert (A := vs_lv _ _ _ Hv1 x Hx). simpl in A.
+        assert (B := Hctx x (HinD1 x Hx)). lia. }
+      destruct (chain_m rec r st1) as [[es' st2]|] eqn:E2; [|discriminate].
+      assert (Hctx1 : kctx st1 (lv f)) by (intros x Hx; apply Hctx; rewrite <- Hrs1; exact Hx).
+      destruct (IH st1 es' st2 ltac:(intros x Hx; apply Hin; right; exact Hx) Hinv1 Hctx1 E2)
+        as [Hinv2 [Hrs2 [Hfr2 Hall]]].
+      intros H. inversion H; subst es st'. clear H.
+      split; [exact Hinv2|]. split; [congruence|]. split.
+      + apply (frames_ext st st2 (D1 ++ [])); [|eapply frames_trans; eauto].
+        intros x. rewrite app_nil_r. split; [intros Hx; exfalso; eapply Hempty; eauto|intros []].
+      + constructor; [|exact Hall]. eapply vspec_ext; [| |exact Hv1].
+        * intros x Hx. exfalso. eapply Hempty; eauto.
+        * intros x [].
+  Qed.
+
+  Lemma exact_list n : forall cs es ps, Forall2 (fun c v => vspec (KNames c) v []) cs es ->
+    sequence (map (names_pure canon g n []) cs) = Some ps -> Forall2 (env_rel same_set) es ps.
+  Proof.
+    induction cs as [|c r IH]; intros es ps HF; inversion HF; subst; simpl.
+    - intros H. inversion H. constructor.
+    - destruct (names_pure canon g n [] c) as [pc|] eqn:Ec; [|discriminate].
+      destruct (sequence (map (names_pure canon g n []) r)) as [ps'|] eqn:Es; [|discriminate].
+      intros H. inversion H; subst ps. constructor; [eapply exact_of_vspec; eauto|apply IH; auto].
+  Qed.
+
+  (* parent_names of an entry flow *)
+  Lemma entry_vspec f fl es : nth_error (flows g) f = Some fl -> parents fl = [] ->
+    Forall2 (fun c v => vspec (KNames c) v []) (chain fl) es ->
+    vspec (KPar f) (hide_env (hide fl) (fold_right overlay (PM.empty _) es)) [].
+  Proof.
+    intros Hf Hp HF.
+    destruct (sequence_defined canon g [] (chain fl)) as [n [ps Hps]].
+    { intros c Hc. destruct (wf_chain g lv Hwf f fl c Hf Hp Hc) as [_ [cl Hcl]].
+      eapply names_pure_total; eauto. }
+    assert (Hrel := entry_env_rel (hide fl) es ps (exact_list n _ _ _ HF Hps)).
+    constructor.
+    - intros w a [[r [[fl' [Hf' [_ [n' [fl'' [es' [Hf'' [_ [Es' ->]]]]]]]]] Hr]]|[g0 [[fl' [Hf' He]] _]]].
+      + rewrite Hf in Hf''. inversion Hf''; subst fl''.
+        rewrite <- (sequence_det canon g _ _ _ _ _ _ Hps Es') in Hr.
+        eapply rowT_row_eq; [apply row_eq_sym; apply (Hrel w)|exact Hr].
+      + rewrite Hf in Hf'. inversion Hf'; subst fl'. rewrite Hp in He. destruct He as [[]|[l [[] _]]].
+    - intros w a Ha. left. eexists. split.
+      + exists fl. split; [exact Hf|]. split; [exact Hp|]. exists n, fl, ps. repeat split; auto.
+      + eapply rowT_row_eq; [apply (Hrel w)|exact Ha].
+    - intros w. apply entry_row_ok. rewrite Forall_forall. intros e He.
+      clear -HF He. induction HF as [|c v cs vs Hv _ IH]; [contradiction|].
+      destruct He as [<-|He]; [apply (vs_ok _ _ _ Hv)|apply IH; exact He].
+    - intros l [].
+  Qed.
+
+  (* Flow._get_parent_names *)
+  Lemma pbody_full rec f fl st pe st' : rec_full rec -> nth_error (flows g) f = Some fl ->
+    inv st -> kctx st (lv f) -> pbody false canon g rec fl st = Some (pe, st') ->
+    cspec (KPar f) st st' pe.
+  Proof.
+    intros Hrec Hf Hinv Hctx. unfold pbody. destruct (parents fl) as [|p ps] eqn:Ep.
+    - destruct (chain_m rec (chain fl) st) as [[es st1]|] eqn:E; [|discriminate].
+      destruct (chain_m_full rec f fl Hrec Hf Ep _ _ _ _ (incl_refl _) Hinv Hctx E) as [Hinv1 [Hrs1 [Hfr Hall]]].
+      intros H. inversion H; subst pe st'. split; [exact Hinv1|]. split; [exact Hrs1|].
+      exists []. split; [exact Hfr|]. split; [intros x []|]. apply entry_vspec; assumption.
+    - destruct (gather_m false g rec (p :: ps) st) as [[es st1]|] eqn:E; [|discriminate].
+      assert (Hin : incl (p :: ps) (parents fl)) by (rewrite Ep; apply incl_refl).
+      destruct (gather_m_full rec f fl Hrec Hf _ _ _ _ Hin Hinv Hctx E)
+        as [Hinv1 [Hrs1 [D [Hfr [HinD [HlvD [Hps Hvs]]]]]]].
+      intros H. inversion H; subst pe st'. split; [exact Hinv1|]. split; [exact Hrs1|].
+      exists D. split; [exact Hfr|]. split; [exact HinD|].
+      apply (join_vspec f fl D es Hf); [rewrite Ep; discriminate|exact HlvD| |]; rewrite Ep; assumption.
+  Qed.
+
+  (* names = own bindings over parent_names *)
+  Lemma vspec_names_of_par f fl pe D : nth_error (flows g) f = Some fl ->
+    vspec (KPar f) pe D -> vspec (KNames f) (own_env (own fl) pe) D.
+  Proof.
+    intros Hf [LB UB OK LVB]. constructor.
+    - intros w a [p [Hp Hnd]]. unfold T. rewrite find_own_env.
+      inversion Hp as [f0 a0 Hfin|f0 g0 p' a0 [Hb He] Hp']; subst.
+      + destruct Hfin as [[b [Hb ->]]|[Hb [r [He Hr]]]]; rewrite (fbind_own g w f fl Hf) in Hb; rewrite Hb.
+        * left. reflexivity.
+        * apply LB. left. exists r. auto.
+      + rewrite (fbind_own g w f fl Hf) in Hb. rewrite Hb. apply LB. right. exists g0. split; [exact He|].
+        exists p'. split; [exact Hp'|]. inversion Hnd; assumption.
+    - intros w a. unfold T. rewrite find_own_env. destruct (bind_of w (own fl)) as [b|] eqn:Eb.
+      + intros [<-|[]]. exists []. apply np_final. left. exists b.
+        split; [rewrite (fbind_own g w f fl Hf); exact Eb|reflexivity].
+      + intros Ha. eapply PSem_NSem; eauto. apply UB. exact Ha.
+    - intros w. rewrite find_own_env. destruct (bind_of w (own fl)) as [b|]; [exists b; left; reflexivity|apply OK].
+    - exact LVB.
+  Qed.
+
+  (* a flow that closes loop l answers with the loop *)
+  Lemma vspec_names_of_loop f l v D : nth_error (loops g) l = Some f ->
+    vspec (KLoop l) v D -> vspec (KNames f) v D.
+  Proof.
+    intros Ht [LB UB OK LVB]. constructor.
+    - intros w a [p [Hp Hnd]]. apply LB. exists f. split; [exact Ht|]. exists p. split; [|exact Hnd].
+      apply npath_avoid; [|exact Hp]. intros x Hx E. rewrite Ht in E. inversion E; subst x.
+      inversion Hnd; subst. contradiction.
+    - intros w a Ha. destruct (UB w a Ha) as [t [Ht' Hs]]. rewrite Ht in Ht'. inversion Ht'; subst t. exact Hs.
+    - exact OK.
+    - intros x Hx. specialize (LVB x Hx). simpl in *. rewrite (LLV_target _ _ Ht) in LVB. exact LVB.
+  Qed.
+
+  Lemma cspec_kctx st st1 : resolving st1 = resolving st -> forall n, kctx st n -> kctx st1 n.
+  Proof. intros H n Hc x Hx. apply Hc. rewrite <- H. exact Hx. Qed.
+
+  Lemma names_m_full : forall fuel, rec_full (names_m false canon g fuel).
+  Proof.
+    induction fuel as [|k IH]; intros f st v st' Hinv Hctx; simpl; [discriminate|].
+    destruct (nth_error (flows g) f) as [fl|] eqn:Hf; [|discriminate].
+    destruct (closes_of g f) as [l|] eqn:Ec.
+    - destruct (existsb (Nat.eqb l) (resolving st)) eqn:Em.
+      + intros H.
+        refine (memo_call_full (KNames f) _ st v st' Hinv _ H).
+        intros sa v1 sb Hinva Hrsa _ Hfa.
+        destruct (memo_call false (KPar f) (pbody false canon g (names_m false canon g k) fl) sa)
+          as [[pe sc]|] eqn:Ep; [|discriminate].
+        inversion Hfa; subst v1 sb.
+        assert (Hc : cspec (KPar f) sa sc pe).
+        { refine (memo_call_full (KPar f) _ sa pe sc Hinva _ Ep).
+          intros s1 v2 s2 Hinv1 Hrs1 _ Hb.
+          apply (pbody_full _ f fl s1 v2 s2 IH Hf Hinv1); [|exact Hb].
+          apply (cspec_kctx sa s1 Hrs1). apply (cspec_kctx st sa Hrsa). exact Hctx. }
+        destruct Hc as [A [B [D [C [E F]]]]]. split; [exact A|]. split; [exact B|].
+        exists D. split; [exact C|]. split; [exact E|]. apply vspec_names_of_par; assumption.
+      + assert (Ht := closes_of_spec _ _ _ Ec).
+        destruct (loop_m false g (names_m false canon g k) l st) as [[[v0|] s0]|] eqn:El; try discriminate.
+        intros H. inversion H; subst v0 s0. clear H.
+        destruct (loop_m_full _ l f st (Some v) st' IH Ht Hinv Hctx El) as [A [B [D [C [E F]]]]].
+        split; [exact A|]. split; [exact B|]. exists D. split; [exact C|]. split; [exact E|].
+        eapply vspec_names_of_loop; eauto.
+    - intros H.
+      refine (memo_call_full (KNames f) _ st v st' Hinv _ H).
+      intros sa v1 sb Hinva Hrsa _ Hfa.
+      destruct (memo_call false (KPar f) (pbody false canon g (names_m false canon g k) fl) sa)
+        as [[pe sc]|] eqn:Ep; [|discriminate].
+      inversion Hfa; subst v1 sb.
+      assert (Hc : cspec (KPar f) sa sc pe).
+      { refine (memo_call_full (KPar f) _ sa pe sc Hinva _ Ep).
+        intros s1 v2 s2 Hinv1 Hrs1 _ Hb.
+        apply (pbody_full _ f fl s1 v2 s2 IH Hf Hinv1); [|exact Hb].
+        apply (cspec_kctx sa s1 Hrs1). apply (cspec_kctx st sa Hrsa). exact Hctx. }
+      destruct Hc as [A [B [D [C [E F]]]]]. split; [exact A|]. split; [exact B|].
+      exists D. split; [exact C|]. split; [exact E|]. apply vspec_names_of_par; assumption.
+  Qed.
+
+  (* ------------------------------------------------------------------------------------------ *)
+  (* Part 3: queries and histories                                                                *)
+  (* ------------------------------------------------------------------------------------------ *)
+
+  Lemma flow_exists_lt f fl i : nth_error (flows g) f = Some fl -> i < f -> exists il, nth_error (flows g) i = Some il.
+  Proof.
+    intros Hf Hlt. destruct (nth_error (flows g) i) eqn:E; [eauto|]. apply nth_error_None in E.
+    assert (f < length (flows g)) by (apply nth_error_Some; congruence). lia.
+  Qed.
+
+  Lemma pnames_total R f fl : nth_error (flows g) f = Some fl ->
+    exists n pe, pnames_with canon g (names_pure canon g n) R fl = Some pe.
+  Proof.
+    intros Hf. unfold pnames_with. destruct (parents fl) as [|p ps] eqn:Ep.
+    - destruct (sequence_defined canon g R (chain fl)) as [n [es Hes]].
+      + intros c Hc. destruct (wf_chain g lv Hwf f fl c Hf Ep Hc) as [_ [cl Hcl]]. eapply names_pure_total; eauto.
+      + exists n. rewrite Hes. eauto.
+    - destruct (gather_defined canon g R (p :: ps)) as [n [es Hes]].
+      + intros i Hi. rewrite <- Ep in Hi. destruct (wf_dir g lv Hwf f fl i Hf Hi) as [_ Hlt].
+        destruct (flow_exists_lt f fl i Hf Hlt) as [il Hil]. eapply names_pure_total; eauto.
+      + intros l Hl _. rewrite <- Ep in Hl. destruct (wf_loop g lv Hwf f fl l Hf Hl) as [t [tl [Ht [_ Htl]]]].
+        exists t. split; [exact Ht|]. eapply names_pure_total; eauto.
+      + intros l Hl. rewrite <- Ep in Hl. destruct (wf_loop g lv Hwf f fl l Hf Hl) as [t [tl [Ht _]]]. eauto.
+      + exists n. rewrite Hes. eauto.
+  Qed.
+
+  (* a parent_names value without dependencies is the memo-free parent_names under the empty context *)
+  Lemma exact_par f fl pe n pe' : nth_error (flows g) f = Some fl -> vspec (KPar f) pe [] ->
+    pnames_with canon g (names_pure canon g n) [] fl = Some pe' -> env_rel same_set pe pe'.
+  Proof.
+    intros Hf [LB UB OK _] Hp w.
+    destruct (pnames_sound canon Hcanon g lv Hdir Hloop Hchain Hhas n [] f fl pe' (psound n) Hf (ctx_ok_nil f) Hp w) as [Hok Hs].
+    apply row_eq_of_T; [apply OK|exact Hok|]. intros a. split.
+    - intros Ha. apply (pnames_complete canon Hcanon g lv Hdir Hloop Hchain Hhas n [] f fl pe' (pcomplete n) Hf (ctx_ok_nil f) Hp w a).
+      apply PSem_simple. apply UB. exact Ha.
+    - intros Ha. apply LB. simpl. apply PSem_simple. apply Hs. exact Ha.
+  Qed.
+
+  Definition top_inv (st : mstate) : Prop := inv st /\ resolving st = [].
+
+  Lemma top_inv_init : top_inv init_state.
+  Proof.
+    split; [|reflexivity]. split; [constructor|]. split; [exact I|]. split; [discriminate|].
+    intros k v D H. rewrite lookup_empty in H. discriminate.
+  Qed.
+
+  Lemma names_at_m_full fuel f idx st e st' : top_inv st ->
+    names_at_m false canon g fuel f idx st = Some (e, st') ->
+    top_inv st' /\ exists n, forall m, n <= m ->
+      exists e', names_at_idx canon g m f idx = Some e' /\ env_rel same_set e e'.
+  Proof.
+    intros [Hinv Hrs]. unfold names_at_m, names_at_idx.
+    destruct (nth_error (flows g) f) as [fl|] eqn:Hf; [|discriminate].
+    destruct (memo_call false (KPar f) (pbody false canon g (names_m false canon g fuel) fl) st)
+      as [[pe st1]|] eqn:E; [|discriminate].
+    assert (Hc : cspec (KPar f) st st1 pe).
+    { refine (memo_call_full (KPar f) _ st pe st1 Hinv _ E).
+      intros s1 v2 s2 Hinv1 Hrs1 _ Hb.
+      apply (pbody_full _ f fl s1 v2 s2 (names_m_full fuel) Hf Hinv1); [|exact Hb].
+      intros x Hx. rewrite Hrs1, Hrs in Hx. contradiction. }
+    destruct Hc as [A [B [D [C [Ein F]]]]].
+    intros H. inversion H; subst e st'. clear H.
+    split; [split; [exact A|congruence]|].
+    assert (F0 : vspec (KPar f) pe []).
+    { eapply vspec_ext; [| |exact F]; [|intros x []]. intros x Hx. specialize (Ein x Hx). rewrite Hrs in Ein. exact Ein. }
+    destruct (pnames_total [] f fl Hf) as [n [pe' Hpe']].
+    exists n. intros m Hm.
+    assert (Hpm := pnames_with_mono canon g _ _ [] fl pe' (names_pure_mono canon g n m Hm) Hpe').
+    rewrite Hpm. eexists. split; [reflexivity|].
+    apply (own_env_rel same_set); [intros b x; tauto|].
+    eapply exact_par; eauto.
+  Qed.
+End Full.
+
+Lemma nth_error_combine_seq {A} (l : list A) : forall f x s, nth_error l f = Some x ->
+  In (s + f, x) (combine (seq s (length l)) l).
+Proof.
+  induction l as [|y r IH]; intros f x s; [destruct f; discriminate|].
+  destruct f as [|f]; simpl.
+  - intros H. inversion H; subst. left. f_equal. lia.
+  - intros H. right. replace (s + S f) with (S s + f) by lia. apply IH. exact H.
+Qed.
+
+Lemma graph_wfb_sound g lvs : graph_wfb g lvs = true -> gwf g (lvf lvs).
+Proof.
+  intros H. unfold graph_wfb in H. rewrite forallb_forall in H.
+  assert (Hfl : forall f fl, nth_error (flows g) f = Some fl -> flow_wfb g lvs f fl = true).
+  { intros f fl Hf. apply (H (f, fl)). apply (nth_error_combine_seq (flows g) f fl 0 Hf). }
+  constructor.
+  - intros f fl i Hf Hi. specialize (Hfl f fl Hf). unfold flow_wfb in Hfl.
+    apply andb_true_iff in Hfl. destruct Hfl as [Hp _]. rewrite forallb_forall in Hp.
+    specialize (Hp _ Hi). simpl in Hp. apply andb_true_iff in Hp. destruct Hp as [A B].
+    apply Nat.eqb_eq in A. apply Nat.ltb_lt in B. auto.
+  - intros f fl l Hf Hl. specialize (Hfl f fl Hf). unfold flow_wfb in Hfl.
+    apply andb_true_iff in Hfl. destruct Hfl as [Hp _]. rewrite forallb_forall in Hp.
+    specialize (Hp _ Hl). simpl in Hp. destruct (nth_error (loops g) l) as [t|]; [|discriminate].
+    apply andb_true_iff in Hp. destruct Hp as [A B]. apply Nat.eqb_eq in A. apply Nat.ltb_lt in B.
+    destruct (nth_error (flows g) t) as [tl|] eqn:Et; [exists t, tl; auto|].
+    apply nth_error_None in Et. lia.
+  - intros f fl c Hf Hp Hc. specialize (Hfl f fl Hf). unfold flow_wfb in Hfl.
+    apply andb_true_iff in Hfl. destruct Hfl as [_ Hq]. rewrite Hp in Hq. rewrite forallb_forall in Hq.
+    specialize (Hq _ Hc). apply andb_true_iff in Hq. destruct Hq as [A B].
+    apply Nat.ltb_lt in A. apply Nat.ltb_lt in B. split; [exact A|].
+    destruct (nth_error (flows g) c) as [cl|] eqn:Ec; [eauto|]. apply nth_error_None in Ec. lia.
+  - intros f fl Hf Hne. specialize (Hfl f fl Hf). unfold flow_wfb in Hfl.
+    apply andb_true_iff in Hfl. destruct Hfl as [_ Hq]. destruct (parents fl) as [|p ps]; [congruence|].
+    apply existsb_exists in Hq. destruct Hq as [x [Hx Hd]]. destruct x as [i|l]; [|discriminate].
+    exists i. exact Hx.
+Qed.
+
+(* ---- the theorem ------------------------------------------------------------------------------- *)
+
+Lemma query_memo_full g lvs km fuel st q a st' : gwf g (lvf lvs) ->
+  top_inv (norm km) g (lvf lvs) st -> query_memo g km fuel st q = Some (a, st') ->
+  top_inv (norm km) g (lvf lvs) st' /\
+  exists n, forall m, n <= m -> exists a', query_pure g km m q = Some a' /\ row_eq a a'.
+Proof.
+  intros Hwf Htop. destruct q as [[f loc] nm]. unfold query_memo, query_memo_gen, query_pure.
+  destruct (nth_error (flows g) f) as [fl|] eqn:Hf; [|discriminate].
+  destruct (names_at_m false (norm km) g fuel f (bisect_idx km fl loc) st) as [[e st1]|] eqn:E; [|discriminate].
+  destruct (names_at_m_full (norm km) (In_norm km) g (lvf lvs) Hwf fuel f _ st e st1 Htop E) as [Ht [n Hn]].
+  intros H. inversion H; subst a st'. split; [exact Ht|].
+  exists n. intros m Hm. destruct (Hn m Hm) as [e' [He' Hrel]]. rewrite He'.
+  eexists. split; [reflexivity|]. apply (Hrel nm).
+Qed.
+
+Lemma run_history_top g lvs km fuel : gwf g (lvf lvs) -> forall h st st',
+  top_inv (norm km) g (lvf lvs) st -> run_history false g km fuel st h = Some st' ->
+  top_inv (norm km) g (lvf lvs) st'.
+Proof.
+  intros Hwf. induction h as [|q r IH]; intros st st' Ht; simpl.
+  - intros H. inversion H; subst. exact Ht.
+  - destruct (query_memo_gen false g km fuel st q) as [[a st1]|] eqn:E; [|discriminate].
+    destruct (query_memo_full g lvs km fuel st q a st1 Hwf Ht E) as [Ht1 _]. apply IH. exact Ht1.
+Qed.
+
+(* memo transparency: every well-formed graph, every history, every query *)
+Theorem memo_transparent_full g lvs km fuel h q st a st' :
+  graph_wfb g lvs = true ->
+  run_history false g km fuel init_state h = Some st ->
+  query_memo g km fuel st q = Some (a, st') ->
+  exists n, forall m, n <= m -> exists a', query_pure g km m q = Some a' /\ row_eq a a'.
+Proof.
+  intros Hwfb Hh Hq. assert (Hwf := graph_wfb_sound g lvs Hwfb).
+  assert (Ht := run_history_top g lvs km fuel Hwf h _ _ (top_inv_init (norm km) g (lvf lvs)) Hh).
+  destruct (query_memo_full g lvs km fuel st q a st' Hwf Ht Hq) as [_ H]. exact H.
+Qed.
